@@ -3,8 +3,8 @@ from corr import style_family, stylestate_family
 from oracles import c20 as oracle
 
 GEN = ["Defaults", "StyleTemp", "StyleSchema"]
-LEAN_TARGETS = ["MagpyVerif.Props.C20", "MagpyVerif.Props.C20b", "MagpyVerif.Props.C20c"]
-PROPS = ["MagpyVerif.Props.C20", "MagpyVerif.Props.C20b", "MagpyVerif.Props.C20c"]
+LEAN_TARGETS = ["MagpyVerif.Props.C20", "MagpyVerif.Props.C20b", "MagpyVerif.Props.C20c", "MagpyVerif.Props.C20d"]
+PROPS = ["MagpyVerif.Props.C20", "MagpyVerif.Props.C20b", "MagpyVerif.Props.C20c", "MagpyVerif.Props.C20d"]
 
 
 def run(ctx, model_ok):
@@ -50,14 +50,14 @@ def run(ctx, model_ok):
                             "copy independence in the CPython heap: for update_nested_dict modelled with addresses (theorem update_nested_sharing, stream compares id()), "
                             "for style objects oracle only",
                             "enumeration-valued leaves (symbols, line styles) are sampled only through their defaults",
-                            "refinement of a whole history to a map path -> value ('a read gives the last accepted write else the default'): proved (defaults_reads_refine_partial) for "
-                            "histories in which magpylib.defaults itself is changed by assignments to plain properties at any depth (accepted or rejected), reset() and reads, with arbitrary "
-                            "operations on the objects in between; NOT proved for update() / dict assignments / display.style.reset() on the defaults and for the objects' own styles: these "
-                            "re-build sub-objects from their dictionaries, and that this changes no other leaf needs `construct` to be idempotent on every reached state (stability preserved by "
-                            "every operation). Proved of that so far: reachable_states_wellformed — after ANY history every object has exactly its class's keys in order at every level and every stored "
-                            "leaf is a fixpoint of its validator (validators_idempotent is computed over the regenerated table); NOT yet proved: well-formed => `construct` rebuilds the tree "
-                            "identically (needs magic_to_dict = identity on well-keyed trees and the constructor-keyword reordering); stability itself is proved for the states at import time "
-                            "(initial_states_stable) and observed by the sstate stream on every final state",
+                            "refinement of a whole history to a map path -> value (C20d.reads_refine): proved for every history over the full op set on the defaults and any number of objects in "
+                            "which the ACCEPTED operations are: assignments to plain properties (any depth), update() on any receiver in magic / nested / mixed notation (positional dict and keywords, "
+                            "either _match_properties) whose argument after magic_to_dict fits the receiver's class, obj.style = dict / None / other.style, display.style.reset(), defaults.reset(), "
+                            "reads; rejected operations are unrestricted. NOT covered when accepted: a dict / None / a string assigned to a SUB-OBJECT property (the new object takes constructor "
+                            "defaults for the keys the dict lacks: needs the constructor on partial dictionaries), the deprecated alias Magnetization.size, _replace_None_only=True, dicts as values "
+                            "of plain properties; for those only reachable_states_wellformed / reachable_states_stable and the sstate stream speak",
+                            "effective_style_refines_partial connects get_style's precedence chain to the abstract map at the OBJECT layer only: the family / base default layers are still the "
+                            "abstract flat functions of Props/C20 (hypothesis hdef); as_dict(flatten=True) of display.style.<family> and the non-None merge over families are not model functions",
                             "'invalid names are rejected': a theorem for every name that is not a property and not in the regenerated per-class list of non-property names the code still "
                             "lets through (private slots `_color`, `__doc__`, `__module__`, `__dict__`, the frozen flag — witness private_slots_not_rejected; the model reports `shadow` for "
                             "them and makes no claim afterwards); every method / dunder-method name is rejected since repo fix 3fc7703 (method_names_rejected)",
